@@ -6,8 +6,14 @@ package main
 
 import (
 	"bytes"
+	"crypto/ecdsa"
+	"crypto/ed25519"
+	"crypto/elliptic"
 	"crypto/sha256"
+	"crypto/x509"
+	"encoding/base64"
 	"encoding/hex"
+	"encoding/pem"
 	"errors"
 	"fmt"
 	"sort"
@@ -110,6 +116,10 @@ func NewWorld(n int) *World {
 		w.KS = tu.Testing4SharesSet()
 	case 7:
 		w.KS = tu.Testing7SharesSet()
+	case 10:
+		w.KS = tu.Testing10SharesSet()
+	case 13:
+		w.KS = tu.Testing13SharesSet()
 	default:
 		panic("committee size")
 	}
@@ -119,6 +129,9 @@ func NewWorld(n int) *World {
 	w.NetCfgS.PermissionlessActivationEpoch = 0
 
 	other := tu.Testing10SharesSet()
+	if n == 10 {
+		other = tu.Testing13SharesSet()
+	}
 	for f := 0; f < vCount; f++ {
 		sh := &ssvtypes.SSVShare{Share: *tu.TestingShare(w.KS)}
 		sh.Quorum, sh.PartialQuorum = ssvtypes.ComputeQuorumAndPartialQuorum(len(sh.Committee))
@@ -155,6 +168,13 @@ func NewWorld(n int) *World {
 			panic(err)
 		}
 		w.OpKeys[spectypes.OperatorID(i)] = k
+	}
+	// operators whose REGISTERED key is not a usable RSA key (the contract stores the bytes unchecked): well-formed PKIX PEM of an
+	// ECDSA and an Ed25519 key, PEM with garbage DER, PEM of another block type, non-PEM text, empty, non-base64
+	for id, pk := range weirdOperatorKeys() {
+		if _, err := ns.SaveOperatorData(nil, &registrystorage.OperatorData{ID: id, PublicKey: []byte(pk), OwnerAddress: common.Address{}}); err != nil {
+			panic(err)
+		}
 	}
 	// duty store: proposer duties on even slots of epochs 1000 and 1001, sync committee duty in the period of epoch 1000
 	var pd, sd []string
@@ -392,20 +412,8 @@ func panicSite(p any, stack string) string {
 	case has(".validateSignatureFormat("):
 		return "sigArrayConversion"
 	}
-	// first frame outside the runtime / this harness
-	fn := "unknown"
-	for _, l := range strings.Split(stack, "\n") {
-		if strings.HasPrefix(l, "\t") || l == "" || strings.HasPrefix(l, "goroutine ") || strings.HasPrefix(l, "runtime") ||
-			strings.HasPrefix(l, "panic(") || strings.Contains(l, "zz_verif") || strings.Contains(l, "debug.Stack") {
-			continue
-		}
-		fn = l
-		if i := strings.Index(fn, "("); i > 0 {
-			fn = fn[:i]
-		}
-		break
-	}
-	return "other(" + fn + ":" + strings.ReplaceAll(s, " ", "_") + ")"
+	// first repo / spec frame on the stack (the harness' own frames are in package main)
+	return "other(" + fuzzSite(stack) + ")"
 }
 
 // ---------------------------------------------------------------- raw encodings for replay
@@ -468,4 +476,42 @@ func sortedKeys(m map[string]int) []string {
 	}
 	sort.Strings(ks)
 	return ks
+}
+
+// weird operators: ids 101..107
+const weirdOpFirst, weirdOpLast = 101, 107
+
+func isWeirdOp(id spectypes.OperatorID) bool { return id >= weirdOpFirst && id <= weirdOpLast }
+
+var weirdKeys map[spectypes.OperatorID]string
+
+func weirdOperatorKeys() map[spectypes.OperatorID]string {
+	if weirdKeys != nil {
+		return weirdKeys
+	}
+	b64 := func(b []byte) string { return base64.StdEncoding.EncodeToString(b) }
+	pemOf := func(typ string, der []byte) []byte { return pem.EncodeToMemory(&pem.Block{Type: typ, Bytes: der}) }
+	ec, err := ecdsa.GenerateKey(elliptic.P256(), strings.NewReader(strings.Repeat("deterministic-seed-for-an-ecdsa-operator-key", 20)))
+	if err != nil {
+		panic(err)
+	}
+	ecDER, err := x509.MarshalPKIXPublicKey(&ec.PublicKey)
+	if err != nil {
+		panic(err)
+	}
+	edPub := ed25519.NewKeyFromSeed([]byte("seed-of-an-ed25519-operator-key!")).Public()
+	edDER, err := x509.MarshalPKIXPublicKey(edPub)
+	if err != nil {
+		panic(err)
+	}
+	weirdKeys = map[spectypes.OperatorID]string{
+		101: b64(pemOf("RSA PUBLIC KEY", ecDER)),
+		102: b64(pemOf("PUBLIC KEY", edDER)),
+		103: b64(pemOf("RSA PUBLIC KEY", []byte{0x30, 0x03, 0x02, 0x01, 0x01})),
+		104: b64(pemOf("CERTIFICATE", ecDER)),
+		105: b64([]byte("this is not a PEM block")),
+		106: "",
+		107: "***not base64***",
+	}
+	return weirdKeys
 }
